@@ -223,6 +223,38 @@ func (c *Ctx) mapWriters(typ, field string) map[string]ssa.Instruction {
 		for _, d := range deletesOf(f, typ, field) {
 			out[fname(topFunc(f))] = d
 		}
+		// the map may also arrive as an argument: an update or delete through parameter i of f counts
+		// when some static call site hands f the field's map in that position
+		for i, p := range f.Params {
+			if _, isMap := p.Type().Underlying().(*types.Map); !isMap {
+				continue
+			}
+			var site ssa.Instruction
+			for _, b := range f.Blocks {
+				for _, in := range b.Instrs {
+					switch t := in.(type) {
+					case *ssa.MapUpdate:
+						if t.Map == ssa.Value(p) {
+							site = in
+						}
+					case *ssa.Call:
+						if calleeKey(t) == "builtin:delete" && len(t.Call.Args) > 0 && t.Call.Args[0] == ssa.Value(p) {
+							site = in
+						}
+					}
+				}
+			}
+			if site == nil {
+				continue
+			}
+			for _, cs := range c.callersOf(f) {
+				for _, ci := range cs {
+					if a := ci.Common().Args; i < len(a) && mentions(a[i], readsField(typ, field), 3, nil) {
+						out[fname(topFunc(f))] = site
+					}
+				}
+			}
+		}
 	}
 	return out
 }
